@@ -38,7 +38,8 @@ impl RunOptions {
             //GlobalOption::MaxDepth(value) => self.max_depth = *value,
             //GlobalOption::MinDepth(value) => self.min_depth = *value,
             ast::GlobalOption::Threads(value) => self.threads = Some(*value),
-            _ => unreachable!(),
+            // Disabled in LiPE: the parser rejects these options, there is nothing to record
+            ast::GlobalOption::MaxDepth(_) | ast::GlobalOption::MinDepth(_) => (),
         }
     }
 }
